@@ -17,7 +17,7 @@ void add (Stokes<double>& result, Spinor<double>& e)
 Stokes<double> epsic::composite::get_Stokes ()
 {
   unsigned A_sample_size = A_fraction * sample_size;
-  unsigned B_sample_size = sample_size - A_fraction;
+  unsigned B_sample_size = sample_size - A_sample_size;
   unsigned max_size = std::max (A_sample_size, B_sample_size);
   
   Stokes<double> result;
